@@ -701,6 +701,7 @@ func (r *vRunner) exec(op vOp, src func() (vOp, bool)) {
 		// a registration on the OTHER list of the same server: for vSvc only its prune (all services) is visible
 		rec := *op.Recipe
 		b := w.build(rec)
+		op.VP = b.model
 		cls := vRecover(func() error { return w.server.Register(ctx, vSvc2, b.vp) })
 		if cls == "ok" {
 			w.noise[rec.Subject] = b.vp.ID.String()
